@@ -134,7 +134,7 @@ func Generated(r *prng.R, o gen.Opts, prop string, seed uint64, idx int) *core.S
 	g := gen.New(r, o)
 	p := g.Generate()
 	sc := &core.Scenario{Property: prop, Seed: seed, Index: idx, Level: "L1", Kind: "generated", Program: p.Text,
-		RandSeed: int64(r.Intn(1000) + 1), NoTestSummary: r.Chance(0.5), ReplayExact: true}
+		RandSeed: int64(r.Intn(1000) + 1), NoTestSummary: r.Chance(0.5), FailFast: o.Tests && r.Chance(0.25), ReplayExact: true}
 	sc.Schedule.Map.Default.Kind = "asc"
 	nreads := strings.Count(p.Text, "read")
 	if nreads > 0 {
